@@ -105,6 +105,19 @@ func engineSnapshot(lists []filterlist.RuleList, reqs []Req) (string, bool) {
 			host := q.Hostname
 			res, ok := de.MatchRequest(&urlfilter.DNSRequest{Hostname: host, ClientName: r.ClientName, DNSType: r.DNSType, SortedClientTags: r.Tags})
 			if res != nil {
+				// what callers do with a result: read every reported rule, ask for the effective rewrites (twice)
+				for _, nr := range res.NetworkRules {
+					sb.WriteString(fmt.Sprint(len(nr.RuleText)) + ",")
+				}
+				for k := 0; k < 2; k++ {
+					for _, rw := range res.DNSRewritesAll() {
+						sb.WriteString("A" + rw.RuleText)
+					}
+					for _, rw := range res.DNSRewrites() {
+						sb.WriteString("R" + rw.RuleText)
+					}
+				}
+				sb.WriteString("\x02")
 				d := []string{fmt.Sprint(ok)}
 				if res.NetworkRule != nil {
 					d = append(d, "N"+res.NetworkRule.RuleText)
